@@ -228,3 +228,60 @@ class PositionFind(object):
                 if not (0 <= c < len(lt)):
                     return 'candidate id %r out of range' % (c,)
         return None
+
+
+@oracle('spec.size_window_tightness')
+class SizeWindowTightness(object):
+    """C14 (bounded): the size window computed by the real get_size_lower_bound / get_size_upper_bound
+    (SizeFilter keeps a pair iff lb(x) <= y <= ub(x): proved, contracts/size.py) admits no pair of
+    counts (x, y) whose best attainable similarity is more than 1e-4 below the threshold.
+    best(x, y): JACCARD min/max, DICE 2 min/(x+y), COSINE min/sqrt(x y); exact rational comparison.
+    Scope: all 0 <= x, y <= N (N = 60 quick, 200 thorough), thresholds k/100, k/1000 (k < 100),
+    a/b (b < 30) and small thresholds around the rounding step; plus seeded random (x, y, t).
+    Case COSINE excludes y == 0 < x, the region of known finding D11, which is case COSINE-right-empty."""
+
+    @staticmethod
+    def best_below(M, x, y, t):
+        from fractions import Fraction as F
+        lo = min(x, y)
+        d = F(t) - F(1, 10000)
+        if d <= 0:
+            return False
+        if M == 'JACCARD':
+            return F(lo, max(x, y)) < d
+        if M == 'DICE':
+            return F(2 * lo, x + y) < d
+        return F(lo * lo, x * y) < d * d if x * y else True
+
+    def inputs(self, case, rng, model, tier):
+        M = case.split('-')[0]
+        N = 200 if tier == 'thorough' else 60
+        ths = sorted(set([k / 100.0 for k in range(1, 101)] + [k / 1000.0 for k in range(1, 100)] +
+                         [float(a) / b for b in range(1, 30) for a in range(1, b + 1)] +
+                         [0.00011, 0.0002, 0.0005, 0.005, 0.00707, 0.0071, 0.0001, 0.00015]))
+        if case.endswith('right-empty'):
+            for t in ths:
+                for x in range(1, N):
+                    yield dict(M=M, x=x, y=0, t=t)
+            return
+        for t in ths:
+            for x in range(0, N):
+                for y in range(0, N):
+                    if (x == 0 and y == 0) or (M == 'COSINE' and y == 0):
+                        continue
+                    yield dict(M=M, x=x, y=y, t=t)
+        for _ in range(200000 if tier == 'thorough' else 20000):
+            x, y = rng.randint(1, 100000), rng.randint(1, 100000)
+            if rng.random() < 0.5:
+                y = max(1, int(x * rng.random()))
+            yield dict(M=M, x=x, y=y, t=rng.choice([rng.random(), rng.random() * 0.1, round(rng.random(), 2), float(y) / x if y <= x else float(x) / y]) or 0.5)
+
+    def check(self, case, a):
+        from py_stringsimjoin.filter.filter_utils import get_size_lower_bound, get_size_upper_bound
+        M, x, y, t = a['M'], a['x'], a['y'], a['t']
+        kept = get_size_lower_bound(x, M, t) <= y <= get_size_upper_bound(x, M, t)
+        if kept and self.best_below(M, x, y, t):
+            return ('size window of %d tokens under %s %r is [%d, %d] and admits %d tokens, although the best attainable '
+                    'similarity of these counts is more than 1e-4 below the threshold'
+                    % (x, M, t, get_size_lower_bound(x, M, t), get_size_upper_bound(x, M, t), y))
+        return None
